@@ -939,6 +939,59 @@ func runEvalCase(c *Ctx, e *ex, expr string, m string, binds []binding, label st
 	c.model(strings.TrimSpace(op), out, "model-host")
 }
 
+// "each node applies its operation to its operands in written order": a user function that assigns a variable makes the
+// order of evaluation visible - the operand to its left holds the old value, the operand to its right the new one;
+// a program handed over as tokens is evaluated as THAT program, whatever text was evaluated before
+func propOperandOrderEffects(c *Ctx) {
+	for _, sc := range []struct {
+		expr string
+		want int
+	}{{"n * 100 + NEXT() + n", 102}, {"n + NEXT() * 10 + n * 1000", 2001}, {"NEXT() + n", 2}, {"n + NEXT()", 1}, {"Array(n, NEXT(), n)[0] * 10 + Array(n, NEXT(), n)[2]", 13}, {"(n + NEXT()) * n", 2}} {
+		op := "ordereff " + strRunes(sc.expr)
+		c.record(op, true)
+		c.count("operand-order-effects")
+		note := ""
+		st := safeCall(func() string {
+			calc := calculator.NewExpressionCalculator()
+			calc.SetAutoVariables(false)
+			vars := variables.NewVariableCollection()
+			vars.Add(variables.NewVariable("n", variants.VariantFromInteger(1)))
+			fns := functions.NewDefaultFunctionCollection()
+			// NEXT(): n := n + 1 (a NEW value object is assigned to the variable), returns 0
+			fns.Add(functions.NewDelegatedFunction("NEXT", func(p []*variants.Variant, o variants.IVariantOperations) (*variants.Variant, error) {
+				v := vars.FindByName("n")
+				v.SetValue(variants.VariantFromInteger(v.Value().AsInteger() + 1))
+				return variants.VariantFromInteger(0), nil
+			}))
+			if err := calc.SetExpression(sc.expr); err != nil {
+				return "parse error " + errCode(err)
+			}
+			r, err := calc.EvaluateUsingVariablesAndFunctions(vars, fns)
+			if err != nil || r.Type() != variants.Integer || r.AsInteger() != sc.want {
+				note = fmt.Sprintf("%q with n = 1 and NEXT() assigning n + 1 to n (and returning 0): evaluating the tree in written order gives %d, the calculator gives %s", sc.expr, sc.want, outcome(r, err))
+			}
+			return ""
+		})
+		if st != "" || note != "" {
+			c.fail(Failure{Kind: "oracle", Op: op, Impl: st, Note: note})
+		}
+	}
+	// text, then the tokens of another program that spell the same characters once decoded - and the other way round
+	for _, pr := range [][2]string{{"1+2", "'1'+'2'"}, {"7*3", "'7'*3"}, {"2+3*4", "'2'+3*4"}, {"10", "'10'"}, {"1<2", "'1'<'2'"}} {
+		for _, order := range [][]evalStep{{{expr: pr[0]}, {expr: pr[1], viaTokens: true}}, {{expr: pr[1], viaTokens: true}, {expr: pr[0]}}, {{expr: pr[0]}, {expr: pr[0]}, {expr: pr[1], viaTokens: true}, {expr: pr[0]}}} {
+			last := order[len(order)-1]
+			fresh := evalSeq("u", []evalStep{last})
+			got := evalSeq("u", order)
+			op := evalSeqOp("u", order)
+			c.record(op, true)
+			c.count("text-then-tokens")
+			if got != fresh {
+				c.fail(Failure{Kind: "oracle", Op: op, Impl: got, Spec: fresh, Note: fmt.Sprintf("a calculator that evaluated %d other program(s) before gives %s for %q (handed over as tokens: %v); a new calculator gives %s", len(order)-1, got, last.expr, last.viaTokens, fresh)})
+			}
+		}
+	}
+}
+
 func propC01(c *Ctx) {
 	g := newExGen(c)
 	g.funcs = []string{"Max", "min", "SUM", "If", "Array", "abs", "Choose", "nosuch", "Contains", "Trunc"}
@@ -965,6 +1018,7 @@ func propC01(c *Ctx) {
 	propScaleExpressions(c, "C01")
 	propLiterals(c)
 	propDefaultTableEdits(c)
+	propOperandOrderEffects(c)
 	for _, pr := range [][2]string{{"T\u212a", "Tk"}, {"x\u212b", "xå"}, {"Tk", "T\u212a"}} {
 		for _, tpl := range []string{"%s - %s", "Array(%s, %s)[0] * 10 + Array(%s, %s)[1]", "%s + %s * 2 - %s"} {
 			expr := strings.ReplaceAll(strings.ReplaceAll(strings.Replace(strings.Replace(tpl, "%s", pr[0], 1), "%s", pr[1], 1), "%s", pr[0]), "%s", pr[1])
@@ -1099,6 +1153,10 @@ func replayEval(c *Ctx, op string) {
 	}
 	if strings.HasPrefix(op, "deftable ") {
 		propDefaultTableEdits(c)
+		return
+	}
+	if strings.HasPrefix(op, "ordereff ") {
+		propOperandOrderEffects(c)
 		return
 	}
 	if f := strings.Fields(op); len(f) == 2 && f[0] == "lit" {
